@@ -49,6 +49,7 @@ type PeerPlan struct {
 	Comments    int               `json:"comments"`   // 0 none, 1 "; text" lines, 2 also ;PM: lines
 	EarlyFQ     bool              `json:"early_fq"`
 	DupInBlock  bool              `json:"dup_in_block"`
+	DupPos      int               `json:"dup_pos,omitempty"` // where the second copy of the block's first message goes: 0 = last, k = index k
 	MaxPerBlock int               `json:"max_per_block"` // 1..5 (0 = 5)
 	Gzip        bool              `json:"gzip"`
 	Record      bool              `json:"record"`
@@ -382,7 +383,12 @@ func (p *peer) outTurn() (done bool, err error) {
 	}
 	block := append([]OutMsg(nil), cand...)
 	if p.plan.DupInBlock && len(block) < 5 {
-		block = append(block, block[0]) // the same message proposed twice in one block
+		// the same message proposed twice in one block
+		if k := p.plan.DupPos; k > 0 && k < len(block) {
+			block = append(block[:k], append([]OutMsg{block[0]}, block[k:]...)...)
+		} else {
+			block = append(block, block[0])
+		}
 	}
 	code := byte('C')
 	if p.gzipOn {
